@@ -1,5 +1,5 @@
 """C09 — the scheduler daemon starts each DAG exactly at its scheduled minutes."""
-import calendar, datetime, json, os, subprocess
+import calendar, datetime, json, os, subprocess, time
 import common
 
 TIE = {"Cron": ["h_cron_run", "h_cron_nextTick", "h_cron_start", "h_cron_Invoke", "h_cron_now",
@@ -255,6 +255,8 @@ def render_yaml(d):
             return " []\n"
         return "\n" + "".join("%s- %s\n" % (ind, q(i) if i is not None else "7") for i in v["items"])
     f = d["form"]
+    if d.get("name") is not None and f != "bad":
+        tail = "name: %s\n" % q(d["name"]) + tail      # explicit DAG name (may differ from the file's id)
     if f == "absent":
         return tail
     if f == "bad":
@@ -385,6 +387,21 @@ def gen_def(rng, target, kind_w):
     return {"form": "map", "kvs": kvs}
 
 
+def give_name(rng, d, fid, fids):
+    """a share of the DAG files carry an explicit `name:` — different from the file's id (d<fid>), equal to ANOTHER
+    file's id, or equal to its own; suspension and every other identity in the property go by the FILE id"""
+    r = rng.random()
+    if r < 0.6:
+        return
+    others = [f for f in fids if f != fid]
+    if r < 0.75:
+        d["name"] = "report%d" % fid
+    elif r < 0.9 and others:
+        d["name"] = "d%d" % rng.choice(others)
+    else:
+        d["name"] = "d%d" % fid
+
+
 def predict_start(defs, fid, t, susp, code):
     """generator-side guess (own matcher) whether a start happens — only used to shape consistent histories"""
     st, _, _, bad = def_specs(defs[fid])
@@ -436,6 +453,8 @@ def gen_sim(rng, cid, flavour):
         classes = [rng.choice(["valid", "valid", "never", "double", "invalid"]) for _ in range(nd + 1)]
     rng.shuffle(classes)
     defs = {i + 1: gen_def(rng, target, c) for i, c in enumerate(classes)}
+    for f, d in defs.items():
+        give_name(rng, d, f, sorted(defs))
     ops = [{"op": "file", "fid": f, "def": d} for f, d in defs.items()]
     started = {}            # fid -> second of the start the daemon is predicted to have issued
     alive_defs = dict(defs)
@@ -443,7 +462,7 @@ def gen_sim(rng, cid, flavour):
     def ticks(t, n):
         out = []
         for _ in range(n):
-            susp = [f for f in alive_defs if rng.random() < 0.12]
+            susp = [f for f in alive_defs if rng.random() < 0.18]
             st = {}
             for f in alive_defs:
                 st[str(f)] = gen_status(rng, t, started.get(f))
@@ -472,12 +491,14 @@ def gen_sim(rng, cid, flavour):
                 if k < 0.45:
                     fid = max(alive_defs) + 1 if alive_defs else 1
                     d = gen_def(rng, t + 60, rng.choice(["valid", "valid", "invalid", "double"]))
+                    give_name(rng, d, fid, sorted(set(alive_defs) | {fid}))
                     ops.append({"op": "file", "fid": fid, "def": d}); ops.append({"op": "ev", "kind": "write", "fid": fid})
                     if def_specs(d)[3] is None and all(py_parse(s) != "err" for s in sum(def_specs(d)[:3], [])):
                         alive_defs[fid] = d
                 elif k < 0.8 and alive_defs:
                     fid = rng.choice(sorted(alive_defs))
                     d = gen_def(rng, t + 60, rng.choice(["valid", "invalid"]))
+                    give_name(rng, d, fid, sorted(alive_defs))
                     ops.append({"op": "file", "fid": fid, "def": d}); ops.append({"op": "ev", "kind": "write", "fid": fid})
                     if def_specs(d)[3] is None and all(py_parse(s) != "err" for s in sum(def_specs(d)[:3], [])):
                         alive_defs[fid] = d
@@ -523,6 +544,14 @@ def corpus():
         {"op": "boot", "now0": T + 40}, tick({"1": "r:%d" % (T + 4)}),
         {"op": "boot", "now0": T + 50}, tick({"1": "f:%d" % (T + 4)}),
         {"op": "boot", "now0": T + 55}, tick({"1": "f:%d" % (T - 1)})]})
+    # suspension goes by FILE id whatever `name:` says: d1 (name: report) suspended, d2 carries d1's id as its name,
+    # d3 carries its own; then d2 suspended instead
+    ev = "* * * * *"
+    c.append({"k": "sim", "id": "w-name-vs-file-id", "flavour": "corpus", "ops": [
+        {"op": "file", "fid": 1, "def": {"form": "str", "s": ev, "name": "report"}},
+        {"op": "file", "fid": 2, "def": {"form": "map", "kvs": [["start", {"t": "s", "s": ev}], ["restart", {"t": "s", "s": ev}]], "name": "d1"}},
+        {"op": "file", "fid": 3, "def": {"form": "str", "s": ev, "name": "d3"}},
+        {"op": "boot", "now0": T + 3}, tick(susp=[1]), tick(susp=[2]), tick(susp=[3]), tick(susp=[1, 2, 3]), tick()]})
     c.append({"k": "sim", "id": "w-empty-set", "flavour": "corpus", "ops": [
         {"op": "file", "fid": 1, "def": {"form": "str", "s": ", * * * *"}},
         {"op": "boot", "now0": T + 3}, tick({"1": "n"})]})
@@ -599,11 +628,40 @@ def norm_model_line(c, line):
     return line
 
 
-def run_harness(binp, cases, timeout=1500):
+class HarnessHang(Exception):
+    def __init__(self, lines):
+        self.lines = lines
+
+
+def run_harness(binp, cases, timeout=None):
+    """a whole quick stream (~1000 cases) takes ~30 s; a harness that does not come back is a hang of the code under test"""
     hin = "\n".join(harness_line(c) for c in cases) + "\n"
     env = dict(os.environ, TZ="UTC")
-    p = subprocess.run([binp], input=hin, stdout=subprocess.PIPE, stderr=subprocess.PIPE, text=True, timeout=timeout, env=env)
+    if timeout is None:
+        timeout = 90 + 0.3 * len(cases)
+    try:
+        p = subprocess.run([binp], input=hin, stdout=subprocess.PIPE, stderr=subprocess.PIPE, text=True, timeout=timeout, env=env)
+    except subprocess.TimeoutExpired as e:
+        out = e.stdout or ""
+        if isinstance(out, bytes):
+            out = out.decode("utf-8", "replace")
+        raise HarnessHang(out.split("\n")[:-1])
     return p.returncode, p.stdout.split("\n")[:-1] if p.stdout else [], p.stderr
+
+
+def find_hanging_case(binp, cases, lines):
+    """the first case whose answers are incomplete in what the harness printed before it stopped; confirmed alone"""
+    i = 0
+    for c in cases:
+        n = n_outputs(c)
+        if i + n > len(lines):
+            try:
+                run_harness(binp, [c], timeout=60)
+                return None
+            except HarnessHang:
+                return c
+        i += n
+    return None
 
 
 def split_outputs(cases, lines):
@@ -764,10 +822,20 @@ def monitor_sim(chk, c, outs, counters):
                         chk.violation("C09:start-without-match:next-is-zero-time",
                                       "Start issued at a minute no start schedule matches: a schedule that never fires within 5 years "
                                       "(e.g. %r) gets the zero time from Next and is invoked at every tick" % st[0], c)
+                    elif susp and mS and d.get("name") not in (None, "d%d" % fid):
+                        chk.violation("C09:suspended-dag-started:explicit-name-differs-from-file-id",
+                                      "DAG file d%d.yaml (explicit `name: %s`) is suspended (flag under its file id, as the API writes it) "
+                                      "but is still started at a scheduled minute" % (fid, d["name"]), c)
                     else:
                         chk.violation("C09:start-not-due", "Start issued for d%d at %d: matching=%s suspended=%s status=%s" % (fid, t, mS, susp, code), c)
                 if exp_start and nS == 0:
-                    chk.violation("C09:missed-start", "no Start for d%d at %d although %s matches, not suspended, status=%s" % (fid, t, mS, code), c)
+                    nm = d.get("name")
+                    if nm is not None and nm != "d%d" % fid and any(nm == "d%d" % f2 for f2 in o["susp"]):
+                        chk.violation("C09:missed-start:another-dag-suspended-under-its-name",
+                                      "scheduled minute of d%d.yaml (explicit `name: %s`) missed: it is not suspended, but the DAG whose FILE id "
+                                      "equals that name is" % (fid, nm), c)
+                    else:
+                        chk.violation("C09:missed-start", "no Start for d%d at %d although %s matches, not suspended, status=%s" % (fid, t, mS, code), c)
                 if nS > 1:
                     if exp_start and nS > len(mS) and zero_next(st):
                         chk.violation("C09:start-without-match:next-is-zero-time",
@@ -829,6 +897,7 @@ def run(chk, replay):
         "every invoked entry reads the DAG status as it is when the tick begins (the fake client answers per tick)",
         "the status of a DAG is readable (GetLatestStatus error ⇒ the monitor abstains on start/stop for that DAG and tick)",
         "month / weekday names are lower-cased as ASCII",
+        "a DAG is identified by its file (id = base name without extension) — in the suspend flags, the status script and the recorded calls — never by `name:`",
         "schedule maps carry at most one malformed entry (Go's map iteration order decides which one is seen first otherwise)"]
     common.lean_obligations(chk, "BdModel/Props/C09.lean", TIE)
     binp, out = common.build_harness("cron")
@@ -883,7 +952,27 @@ def run(chk, replay):
             cases.append(gen_sim(rng, "s%d" % i, flav[i % len(flav)]))
         cases.append(watcher_panic_case())      # a loader panic in the watcher goroutine would kill the harness process: must be last
 
-    rc, hlines, herr = run_harness(binp, cases)
+    try:
+        rc, hlines, herr = run_harness(binp, cases)
+    except HarnessHang as hh:
+        c = find_hanging_case(binp, cases, hh.lines)
+        if c is None:
+            # slow, not stuck (e.g. every tick runs into the drain timeout): judge the cases that were answered
+            k, i = 0, 0
+            for cc in cases:
+                if i + n_outputs(cc) > len(hh.lines):
+                    break
+                i += n_outputs(cc); k += 1
+            chk.oblige("harness-run:cron (comes back)", False,
+                       "the harness answered only %d of %d cases in the time a whole stream takes many times over" % (k, len(cases)))
+            if k == 0:
+                return
+            cases, rc, hlines, herr = cases[:k], 0, hh.lines[:i], ""
+        else:
+            chk.violation("C09:daemon-does-not-come-back:" + c["k"] + (":" + c.get("flavour", "") if c.get("flavour") else ""),
+                          "the real scheduler code did not come back from this case within 60 s (a whole stream takes ~30 s): "
+                          "the loop that computes / waits for the next tick spins or blocks", {"case": c})
+            return
     ndrain = sum(1 for l in hlines if "!drain-timeout" in l)
     if ndrain:
         chk.oblige("harness-drain (every goroutine of a tick returned before the tick was read out)", False,
@@ -902,6 +991,7 @@ def run(chk, replay):
 
     # ---- correspondence
     dis_by_kind = {}
+    t_retry0 = time.time()
     dist = {"spec-ok": 0, "spec-err": 0, "spec-panic": 0, "spec-fires": 0, "next-zero": 0, "sim": 0, "ticks": 0, "civil": 0, "next": 0}
     for c, ho, mo in zip(cases, houts, douts):
         chk.evaluations += 1
@@ -930,10 +1020,15 @@ def run(chk, replay):
             dist[c["k"]] += 1
         if ho != mo:
             # timing-sensitive (watcher) cases are retried alone before they count
-            if c["k"] == "sim" and c.get("flavour") != "corpus-last":
+            # (only while disagreements are rare: a systematic difference is not a timing matter, and with a slow
+            #  implementation the retries would eat the time the monitor below needs)
+            if c["k"] == "sim" and c.get("flavour") != "corpus-last" and dis_by_kind.get("sim", 0) < 6 and time.time() - t_retry0 < 150:
                 same = False
                 for _ in range(2):
-                    _, hl2, _ = run_harness(binp, [c])
+                    try:
+                        _, hl2, _ = run_harness(binp, [c], timeout=60)
+                    except HarnessHang:
+                        break
                     if hl2 == mo:
                         same = True; ho = hl2; break
                 if same:
@@ -968,7 +1063,7 @@ def run(chk, replay):
     chk.rule = ("expressions: weighted grammar (values, names in any case, ranges, steps, N/s, lists of 1-4, */s, ?), targeted to fire at a chosen minute, "
                 "never-firing (31 Feb …), leap-day-only, robfig quirks (*-5, +5, empty list items, TZ= prefixes, odd spacing), invalid, random mutations; "
                 "instants 1970-2100 with month ends, leap days, year ends, epoch; daemon cases: 1-5 files (single / list / start-stop-restart map; valid, "
-                "suspended through the flag store, invalid YAML, invalid cron, wrong types, panicking), 1-3 daemon lifetimes (restart in the same minute / "
+                "an explicit `name:` different from / equal to another file's / equal to the own file id, suspended through the flag store by file id, invalid YAML, invalid cron, wrong types, panicking), 1-3 daemon lifetimes (restart in the same minute / "
                 "minutes later / hours-years later), 1-5 ticks each with a wall clock 0 s-67 min late, files added/edited/removed through the real watcher, "
                 "status per DAG per tick: never run / '-' / unreadable / running / finished started in the same minute, ±1 min, hours-years earlier, later; "
                 "the real loop start() under a scripted late clock. non-trivial = a spec that fires at the queried minute, every Next query, and every "
